@@ -185,3 +185,38 @@ def gen_interval(rng, axis, levelmax, kind=None):
         hi = float(hi) - (j() if hi not in (1.0,) else 0.0)
         hi = max(hi, c + 1e-9) if hi < c else hi
     return {"var": "position_" + axis, "lo": lo, "hi": hi, "lo_closed": rng.random() < 0.5, "hi_closed": rng.random() < 0.5}
+
+
+# ---- the kind of callable a predicate is handed over as (a selection entry may be any callable)
+
+CALLABLE_KINDS = ["function", "function", "function", "partial", "object", "method"]
+
+
+def _apply(f, x):
+    return f(x)
+
+
+class _CallableObject:
+    def __init__(self, f):
+        self.f = f
+
+    def __call__(self, x):
+        return self.f(x)
+
+    def method(self, x):
+        return self.f(x)
+
+
+def as_callable(f, kind):
+    """The same predicate as a plain function, a functools.partial, an object with __call__, or a bound method."""
+    import functools
+
+    if kind in (None, "function"):
+        return f
+    if kind == "partial":
+        return functools.partial(_apply, f)
+    if kind == "object":
+        return _CallableObject(f)
+    if kind == "method":
+        return _CallableObject(f).method
+    raise ValueError(kind)
